@@ -162,7 +162,9 @@ func c15ClientJobs(tier string) []*SeqJob {
 					return "dial-error", err.Error()
 				}
 				defer e.close()
-				where := func(k int) string { return fmt.Sprintf("[%s %s %d destination(s)] %v, message %d", c.kind, c.ctor, c.ndest, histLabels(alphabet, hist), k) }
+				where := func(k int) string {
+					return fmt.Sprintf("[%s %s %d destination(s)] %v, message %d", c.kind, c.ctor, c.ndest, histLabels(alphabet, hist), k)
+				}
 				failed := 0
 				for k, op := range hist {
 					steps++
